@@ -370,6 +370,47 @@ def generic_replay(path):
     return 1 if (r.get("violations") or "crashed" in r) else 0
 
 
+def validate_trace_chunked(v, module, cfg, tracefile, splitter, chunk_events=1_500_000, max_chunks=16):
+    """Large traces: validate in chunks of whole runs (TLC holds the chunk it validates in memory). Runs beyond
+    max_chunks x chunk_events are not validated (the number validated is what is reported)."""
+    validated = 0
+    stats = {"states": 0, "transitions": 0}
+    chunk, n_chunks = [], 0
+
+    def flush():
+        nonlocal validated, n_chunks, chunk
+        if not chunk:
+            return
+        cf = f"{tracefile}.c{n_chunks}"
+        open(cf, "w").write("\n".join(chunk) + "\n")
+        n, st = validate_trace(v, module, cfg, cf, splitter=splitter, max_rounds=4)
+        validated += n
+        stats["states"] += st["states"]; stats["transitions"] += st["transitions"]
+        os.remove(cf)
+        n_chunks += 1
+        chunk = []
+
+    run = []
+    with open(tracefile) as f:
+        for line in f:
+            line = line.rstrip("\n")
+            if not line:
+                continue
+            if f'"ev":"{splitter}"' in line and run:
+                if len(chunk) + len(run) > chunk_events:
+                    flush()
+                    if n_chunks >= max_chunks:
+                        run = []
+                        break
+                chunk += run
+                run = []
+            run.append(line)
+    if n_chunks < max_chunks:
+        chunk += run
+        flush()
+    return validated, stats
+
+
 def validate_trace(v, module, cfg, tracefile, splitter="New", max_rounds=6, redo=None):
     """Validate; on rejection report the run containing the rejected line, drop it, validate the rest."""
     validated = 0
